@@ -2,7 +2,7 @@ CONSTANTS MaxBlocks = 99  SimDepth = 8
 INIT Init
 NEXT Next
 VIEW view
-INVARIANTS C17_Design C18_Design C19_Design C20_Design C21_Design C22_Design C24_Design C25_Design C28_Design C32_Design C36_Design C37_Design All_Design EmitSim
+INVARIANTS C17_Design C18_Design C19_Design C20_Design C21_Design C22_Design C24_Design C25_Design C28_Design C32_Design C36_Design C37_Design Params_Design All_Design EmitSim
 PROPERTIES C14_C15_Design C22_Updates_Design C17_SupplyMoves_Design
 CHECK_DEADLOCK FALSE
 CONSTRAINT SimBound
